@@ -1055,6 +1055,11 @@ class StubsStringGenerator:
         if (qname_parts[0] == "builtins" and len(qname_parts) == 2) or import_qname == "typing.Any":
             return
 
+        if len(qname_parts) == 1:
+            # A name without a module part (e.g. a local variable returned by a function without return type hint, or a
+            # class named in a docstring) can neither be imported nor get a placeholder stub
+            return
+
         module_id = self._get_module_id().replace("/", ".")
         if not import_qname.startswith(f"{module_id}."):
             # We need the full path for an import from the same package, but we sometimes don't get enough information,
